@@ -218,3 +218,86 @@ func (w *World) errClassOracle() func(site *ssa.Call, idx int) []string {
 		return sortedKeys(set)
 	}
 }
+
+var nonNilBusy = map[*ssa.Function]bool{}
+var nonNilMemo = map[string]bool{}
+
+// nonNilOracle: result idx of every in-repo callee of the site is non-nil on
+// all of its return paths (summaries computed by the engine itself).
+func (w *World) nonNilOracle() func(site *ssa.Call, idx int) bool {
+	return w.nonNilOracleMode(false)
+}
+
+// nonNilOnSuccessOracle: as nonNilOracle, restricted to return paths whose
+// last (error) result may be nil.
+func (w *World) nonNilOnSuccessOracle() func(site *ssa.Call, idx int) bool {
+	return w.nonNilOracleMode(true)
+}
+
+func (w *World) nonNilOracleMode(onSuccess bool) func(site *ssa.Call, idx int) bool {
+	return func(site *ssa.Call, idx int) bool {
+		var callees []*ssa.Function
+		if f := site.Call.StaticCallee(); f != nil {
+			callees = []*ssa.Function{f}
+		} else {
+			callees = w.Callees(site)
+		}
+		if len(callees) == 0 {
+			return false
+		}
+		for _, f := range callees {
+			if !w.InRepo(f) || f.Blocks == nil {
+				return false
+			}
+			key := fmt.Sprintf("%p#%d/%v", f, idx, onSuccess)
+			if v, ok := nonNilMemo[key]; ok {
+				if !v {
+					return false
+				}
+				continue
+			}
+			if nonNilBusy[f] {
+				return false
+			}
+			nonNilBusy[f] = true
+			s := w.SummariseWith(f, func(e *Engine) {
+				e.MaxSteps = 20000
+				e.Lean = true
+				e.NonNilResult = w.nonNilOracle()
+				e.NoInline = map[*ssa.Function]bool{}
+				for _, g := range w.Funcs {
+					if baseName(g) == "Validate" || baseName(g) == "FilterError" || (c13IsWalker(w, g) && strings.HasPrefix(baseName(g), "Validate")) {
+						e.NoInline[g] = true
+					}
+				}
+			})
+			delete(nonNilBusy, f)
+			ok, _ := s.Complete()
+			if ok {
+				n := 0
+				for _, p := range s.Paths {
+					if p.Ret == nil {
+						continue
+					}
+					if onSuccess {
+						if _, nl := errOf(p, errIndex(f)); nl == 1 {
+							continue
+						}
+					}
+					n++
+					if idx >= len(p.Rets) || p.St.NilOf(p.Rets[idx]) != 1 {
+						ok = false
+					}
+				}
+				if n == 0 {
+					ok = false
+				}
+			}
+			nonNilMemo[key] = ok
+			if !ok {
+				return false
+			}
+		}
+		return true
+	}
+}
